@@ -2,7 +2,6 @@ package tokenizer
 
 import (
 	"bytes"
-	"fmt"
 	"unicode/utf8"
 
 	"github.com/ajitpratap0/GoSQLX/pkg/errors"
@@ -43,11 +42,8 @@ func (r *StringLiteralReader) ReadStringLiteral() (models.Token, error) {
 		if ch == '\\' {
 			// Handle escape sequences
 			if err := r.handleEscapeSequence(&buf); err != nil {
-				return models.Token{}, errors.InvalidSyntaxError(
-					fmt.Sprintf("invalid escape sequence: %v", err),
-					models.Location{Line: r.pos.Line, Column: r.pos.Column},
-					string(r.input),
-				)
+				// a lexical error with its own tokenizer code and location: pass it on as it is
+				return models.Token{}, err
 			}
 			continue
 		}
@@ -93,6 +89,11 @@ func (r *StringLiteralReader) ReadStringLiteral() (models.Token, error) {
 	)
 }
 
+// location is the reader's current position as an error location
+func (r *StringLiteralReader) location() models.Location {
+	return models.Location{Line: r.pos.Line, Column: r.pos.Column}
+}
+
 // handleEscapeSequence processes escape sequences in string literals
 func (r *StringLiteralReader) handleEscapeSequence(buf *bytes.Buffer) error {
 	// Skip the backslash
@@ -100,7 +101,7 @@ func (r *StringLiteralReader) handleEscapeSequence(buf *bytes.Buffer) error {
 	r.pos.Column++
 
 	if r.pos.Index >= len(r.input) {
-		return fmt.Errorf("unexpected end of input after escape character")
+		return errors.UnterminatedStringError(r.location(), string(r.input))
 	}
 
 	ch := r.input[r.pos.Index]
@@ -123,7 +124,7 @@ func (r *StringLiteralReader) handleEscapeSequence(buf *bytes.Buffer) error {
 	case 'u':
 		return r.handleUnicodeEscape(buf)
 	default:
-		return fmt.Errorf("invalid escape sequence '\\%c'", ch)
+		return errors.UnexpectedCharError(rune(ch), r.location(), string(r.input))
 	}
 
 	return nil
@@ -132,7 +133,7 @@ func (r *StringLiteralReader) handleEscapeSequence(buf *bytes.Buffer) error {
 // handleUnicodeEscape handles \uXXXX Unicode escape sequences
 func (r *StringLiteralReader) handleUnicodeEscape(buf *bytes.Buffer) error {
 	if r.pos.Index+4 > len(r.input) {
-		return fmt.Errorf("incomplete Unicode escape sequence")
+		return errors.UnterminatedStringError(r.location(), string(r.input))
 	}
 
 	var value rune
@@ -147,7 +148,7 @@ func (r *StringLiteralReader) handleUnicodeEscape(buf *bytes.Buffer) error {
 		case ch >= 'A' && ch <= 'F':
 			digit = rune(ch-'A') + 10
 		default:
-			return fmt.Errorf("invalid Unicode escape sequence")
+			return errors.UnexpectedCharError(rune(ch), r.location(), string(r.input))
 		}
 		value = value*16 + digit
 	}
